@@ -151,7 +151,9 @@ func (x *G) Doc(inline bool) string {
 		sb.WriteString(" xmlns:inkscape=\"http://www.inkscape.org/namespaces/inkscape\" inkscape:version=\"1.0\"")
 		x.Feats["editor-namespace"]++
 	}
-	for _, a := range []string{"version=\"1.1\"", "x=\"0\"", "y=\"0px\"", "width=\"" + x.pick("w", lengths) + "\"", "height=\"" + x.pick("h", lengths) + "\"", "viewBox=\"" + x.pick("vb", []string{"0 0 100 100", "0,0,100,100", "0.0 0.0 1e2 100.00", " 0 0 10 10", "-5 -5 10.50 10"}) + "\"", "preserveAspectRatio=\"xMidYMid meet\"", "baseProfile=\"none\"", "xml:space=\"preserve\"", "xml:lang=\"en\"", "id=\"root\""} {
+	// root attributes with their default values and with others that merely look like them
+	rootAttr := func(name string, vals []string) string { return name + "=\"" + x.pick("rootval:"+name, vals) + "\"" }
+	for _, a := range []string{rootAttr("version", []string{"1.1", "1.1", "1.0", "1.2", "2", "1.10"}), rootAttr("x", []string{"0", "0", "0px", "5", "10px", "0.5"}), rootAttr("y", []string{"0px", "0", "00", "7", "0.0"}), "width=\"" + x.pick("w", lengths) + "\"", "height=\"" + x.pick("h", lengths) + "\"", "viewBox=\"" + x.pick("vb", []string{"0 0 100 100", "0,0,100,100", "0.0 0.0 1e2 100.00", " 0 0 10 10", "-5 -5 10.50 10"}) + "\"", rootAttr("preserveAspectRatio", []string{"xMidYMid meet", "xMidYMid meet", "xMidYMid slice", "xMidYMid", "none", "xMinYMin meet", "xMidYMax meet", "xMidYMid  meet"}), rootAttr("baseProfile", []string{"none", "none", "tiny", "full", "basic"}), rootAttr("contentScriptType", []string{"application/ecmascript", "text/javascript", "text/ecmascript"}), rootAttr("contentStyleType", []string{"text/css", "text/css", "text/x-foo"}), rootAttr("zoomAndPan", []string{"magnify", "disable"}), "xml:space=\"preserve\"", "xml:lang=\"en\"", "id=\"root\""} {
 		if x.chance("rootattr", 3) {
 			sb.WriteString(" " + a)
 		}
